@@ -22,7 +22,7 @@ def mname(c):
 @cached
 def census(f):
     """queue -> {'calls': [(body, call, method, is_mut)], 'elem_stores': [(body, bb, field, value_term, span)]}"""
-    out = {q: {"calls": [], "elem_stores": [], "stores": []} for q in QUEUES}
+    out = {q: {"calls": [], "elem_stores": [], "stores": [], "closure_sites": {}} for q in QUEUES}
     for b in f.bodies.values():
         if f.in_fuzzing(b):
             continue
@@ -73,6 +73,51 @@ def census(f):
                     rest = [n for n in names[i + 1:] if not n.startswith("@") and n not in ("0", "#")]
                     if rest:
                         out[q]["elem_stores"].append((b, c.bb, rest[-1], ("call", c.bb, c.key, [b.operand_term(a) for a in c.args], c.path), c.span))
+    # closures applied to every element: `queue.iter_mut().for_each(|entry| ...)`
+    for b in list(f.bodies.values()):
+        if f.in_fuzzing(b):
+            continue
+        for c in b.calls.values():
+            if c.bb not in b.reachable or len(c.args) < 2:
+                continue
+            t0 = b.operand_term(c.args[0])
+            q = None
+            for qq in QUEUES:
+                if _names_of_outbound(t0, qq):
+                    q = qq
+            if q is None:
+                continue
+            from .ops import _closure_defs
+            for a in c.args[1:]:
+                for d in _closure_defs(b.operand_term(a)):
+                    cb = f.bodies.get(d)
+                    if cb is None or cb.arg_count < 2:
+                        continue
+                    pname = cb.param_name(2)
+                    every = mname(c) in ("for_each",)
+                    for (bb, j, dst, rv, s2) in cb.stores():
+                        if bb not in cb.reachable:
+                            continue
+                        root, names = chain(cb.place_term(dst), extra=ELEM)
+                        rest = [n for n in names if not n.startswith("@") and n not in ("0", "#")]
+                        if root == ("param", pname) and rest:
+                            out[q]["elem_stores"].append((b, c.bb, rest[-1], cb.rvalue_term(rv), s2["span"]))
+                            out[q]["closure_sites"][(b.name, c.bb, rest[-1])] = (cb, bb, every)
+                    for c2 in cb.calls.values():
+                        if c2.bb not in cb.reachable or not c2.args:
+                            continue
+                        x = cb.operand_term(c2.args[0])
+                        mut = False
+                        while isinstance(x, tuple) and x[0] in ("ref", "deref"):
+                            if x[0] == "ref" and x[2]:
+                                mut = True
+                            x = x[1]
+                        root, names = chain(x, extra=ELEM)
+                        rest = [n for n in names if not n.startswith("@") and n not in ("0", "#")]
+                        if mut and root == ("param", pname) and rest:
+                            val = ("call", c2.bb, c2.key, [cb.operand_term(a2) for a2 in c2.args], c2.path)
+                            out[q]["elem_stores"].append((b, c.bb, rest[-1], val, c2.span))
+                            out[q]["closure_sites"][(b.name, c.bb, rest[-1])] = (cb, c2.bb, every)
     return out
 
 
@@ -118,15 +163,73 @@ def is_sent(t):
     return isinstance(t, tuple) and t[0] == "agg" and t[1] == "adt" and t[2] and t[2].endswith("SendState") and t[3] == "Sent"
 
 
+def helper_write0(f, val):
+    """`val` is a call to a local function that stores Write{written:0} into `*self`: 'always' if on every path,
+    'sometimes' if only on some, None otherwise"""
+    if not (isinstance(val, tuple) and val[0] == "call" and val[2] in f.bodies):
+        return None
+    hb = f.bodies[val[2]]
+    sb = []
+    for (bb, j, dst, rv, s) in hb.stores():
+        if bb in hb.reachable and dst["proj"] == ["deref"] and dst["l"] == 1 and is_write0(hb.rvalue_term(rv)):
+            sb.append(bb)
+    if not sb:
+        return None
+    ok, _ = hb.must_pass([0], hb.returns, via_blocks=sb)
+    return "always" if ok else "sometimes"
+
+
+def unconditional_in_loop(body, store_bb):
+    """the store block lies on every path of the enclosing `for` loop body (from the Some edge of the iterator's
+    next() back to the next() call)"""
+    best = None
+    for bb in body.switches:
+        si = body.switch_info(bb)
+        if si["enum"] == "core::option::Option" and si["edges"].get("Some") is not None:
+            for alt in phi_alts(si["subject"]):
+                if is_call(alt, "core::iter::Iterator::next") and body.dominates(si["edges"]["Some"], store_bb):
+                    if best is None or body.dominates(best[0], si["edges"]["Some"]):
+                        best = (si["edges"]["Some"], alt[1])
+    if best is None:
+        return True  # not in a recognised loop: a plain store
+    some_t, next_bb = best
+    ok, _ = body.must_pass([some_t], [next_bb], via_blocks=[store_bb])
+    return ok
+
+
 @cached
-def rearm_fns(f):
-    """functions that store SendState::Write{written:0} into *existing* queue elements"""
+def rearm_sites(f):
+    """fn name -> {queue: 'always' | 'sometimes'}: functions that reset *existing* queue elements to
+    Write{written:0}, directly or through a helper, and whether they do so for every element on every path"""
     cen = census(f)
     out = {}
     for q in QUEUES:
         for (b, bb, field, val, span) in cen[q]["elem_stores"]:
-            if field == "state" and is_write0(val):
-                out.setdefault(b.name, set()).add(q)
+            if field != "state":
+                continue
+            how = None
+            if is_write0(val):
+                how = "always"
+            else:
+                how = helper_write0(f, val)
+            if how is None:
+                continue
+            cs = cen[q]["closure_sites"].get((b.name, bb, field))
+            if cs is not None:
+                cb, cbb, every = cs
+                if how == "always" and not (every and cb.must_pass([0], cb.returns, via_blocks=[cbb])[0]):
+                    how = "sometimes"
+            elif how == "always" and not unconditional_in_loop(b, bb):
+                how = "sometimes"
+            prev = out.setdefault(b.name, {}).get(q)
+            out[b.name][q] = how if prev is None or prev == how else "sometimes"
+    return out
+
+
+@cached
+def rearm_fns(f):
+    """functions that store SendState::Write{written:0} into *existing* queue elements"""
+    out = {n: set(qs) for n, qs in rearm_sites(f).items()}
     if not out:
         raise AnchorLost("re-arm", "no function resets queue entries to Write{written:0}")
     return out
